@@ -113,6 +113,12 @@ func (b *builder) wave(w int) []input {
 				}
 			}
 		}
+		// a leading UTF-8 byte order mark in front of every seed (rejected by
+		// the unchanged parser; on a tree that accepts it every position must
+		// still count the three bytes)
+		for _, s := range b.seeds {
+			add(s.Name+"+bom", "bom", "\xEF\xBB\xBF"+whole(s))
+		}
 		// CRLF variants and their truncations (stride 3)
 		for _, s := range b.seeds {
 			w := ptree.CRLF(whole(s))
